@@ -63,10 +63,11 @@ func main() {
 		fmt.Fprintf(wi, "ok %s\n", dump(f))
 		arr := make([]int, initLen)
 		var done []op
-		fail := func(what string) {
+		failc := func(class, what string) {
 			c, _ := json.Marshal(map[string]interface{}{"init_len": initLen, "ops": done})
-			hv.Fail("array-model", string(c), what)
+			hv.Fail(class, string(c), what)
 		}
+		fail := func(what string) { failc("array-model", what) }
 		l := initLen
 		t := 0
 		n := 1 + rng.Intn(maxOps)
@@ -108,7 +109,10 @@ func main() {
 				f.Update(t, pos, ins, del)
 			}()
 			if malformed != panicked {
-				if malformed {
+				if malformed && ins == 0 && del == 0 {
+					// decidable class of the known finding C03-noop-beyond-end
+					failc("noop-beyond-end", "Update(t, pos>len, 0, 0) returns without a panic (state unchanged)")
+				} else if malformed {
 					fail("out-of-range request accepted")
 				} else {
 					fail("valid request rejected")
@@ -121,12 +125,14 @@ func main() {
 			}
 			fmt.Fprintf(wi, "ok %s | %s\n", dump(f), strings.Join(em, " "))
 			// the array statement of the property
-			na := append([]int{}, arr[:pos]...)
-			for k := 0; k < ins; k++ {
-				na = append(na, t)
+			if ins != 0 || del != 0 {
+				na := append([]int{}, arr[:pos]...)
+				for k := 0; k < ins; k++ {
+					na = append(na, t)
+				}
+				na = append(na, arr[pos+del:]...)
+				arr = na
 			}
-			na = append(na, arr[pos+del:]...)
-			arr = na
 			l += ins - del
 			stats["updates"]++
 			got := flatten(f)
